@@ -27,6 +27,11 @@ type HashSet interface {
 
 // ::Std::HashSet
 func initHashSet() {
+	// `HashSet()` creates an empty set
+	value.HashSetClass.ConstructorFunc = func(class *value.Class) value.Value {
+		return value.Ref(NewHashSetOfValue(0))
+	}
+
 	// Instance methods
 	c := &value.HashSetClass.MethodContainer
 	Def(
